@@ -362,10 +362,10 @@ def reg(s):
 
 
 def _shape_ew(cfg):
-    return {"2d": (3,), "4d": (2, 1, 2), "1": (1,)}[cfg.get("shape", "2d")]
+    return {"2d": (3,), "4d": (2, 1, 2), "1": (1,), "0": ()}[cfg.get("shape", "2d")]  # "0": scalar events, inputs of shape [batch]
 
 
-EW_SHAPES = ["2d", "4d", "1"]
+EW_SHAPES = ["2d", "4d", "1", "0"]
 
 reg(Subject("IdentityTransform", {"shape": EW_SHAPES}, lambda c: T.IdentityTransform(), _shape_ew, patterns=("init",), kind="elementwise", exact=True))
 
